@@ -126,6 +126,63 @@ class _Ref:
         return float(np.abs(sum(a[0, :] for a in arrays) - e0).max())
 
 
+def _check_ineq(t, rng, ref, c, kind, x, before, xs, var, on_para, scale, sc, vtag, eps, entry, tol):
+    """the inequality-projection clauses on one object x (var: its variables, or None when x was built from operators)"""
+    # ---- inequality projection
+    try:
+        px = x.calc_proj_ineq_constraint()
+        err = None
+    except Exception as e:  # noqa
+        px, err = None, e
+    if err is not None and IMAG_MSG in str(err) and not vtag:
+        t.check(f"ineq/returns-normally:imaginary-rounding-above-default-threshold{sc}", False, entry,
+                "the inequality projection returns for inputs of every scale with the default eps_truncate_imaginary_part",
+                f"raised {type(err).__name__}: {str(err)[:100]}")
+    else:
+        t.check(f"ineq{vtag}/returns-normally{sc}", err is None, entry, "the inequality projection returns for inputs of every scale",
+                "" if err is None else f"raised {type(err).__name__}: {str(err)[:100]}")
+    if px is not None and entry[-1] == 'feasible':
+        dv = float(np.abs(_flat(px) - xs).max())
+        t.check(f"ineq{vtag}/identity-on-feasible{sc}", dv <= tol, entry, "P(x) == x for x whose operators are already positive semidefinite", f"max deviation {dv:.3e}")
+    if px is not None:
+        pa = _arrays(px)
+        lam = min(float(np.linalg.eigvalsh((A + A.conj().T) / 2).min()) for A in ref.operators(kind, pa))
+        t.check(f"ineq{vtag}/positive-semidefinite{sc}", lam >= -tol, entry, "every operator of the result is positive semidefinite", f"min eigenvalue {lam:.3e}")
+        want = ref.ineq_reference(kind, before)
+        dev = max(float(np.abs(a - b).max()) for a, b in zip(pa, want))
+        t.check(f"ineq{vtag}/==positive-part-reference{sc}", dev <= tol, entry,
+                "result == positive part of the denoted operator(s) by an independent eigendecomposition", f"max deviation {dev:.3e}")
+        pxs = _flat(px)
+        worst = -np.inf
+        for _ in range(4):
+            ops = []
+            for A in ref.operators(kind, before):
+                G = np.array([[complex(rng.gauss(0, 1), rng.gauss(0, 1)) for _ in range(A.shape[0])] for _ in range(A.shape[0])])
+                ops.append(scale * (G @ G.conj().T) / A.shape[0])
+            ys = np.hstack([np.asarray(a).reshape(-1) for a in ref.from_operators(kind, ops)])
+            worst = max(worst, float(np.dot(xs - pxs, ys - pxs)))
+        t.check(f"ineq{vtag}/nearest-point{sc}", worst <= tol * max(1.0, scale), entry,
+                "<x - P x, y - P x> <= 0 for positive semidefinite competitors y (variational inequality of the nearest point)", f"max inner product {worst:.3e}")
+        try:
+            px.eps_truncate_imaginary_part = eps
+            ppx = _flat(px.calc_proj_ineq_constraint())
+            dv = float(np.abs(ppx - pxs).max())
+            t.check(f"ineq{vtag}/idempotent{sc}", dv <= tol, entry, "P(P(x)) == P(x)", f"max deviation {dv:.3e}")
+        except Exception as e:  # noqa
+            if not (IMAG_MSG in str(e) and not vtag):
+                t.check(f"ineq{vtag}/idempotent{sc}", False, entry, "P(P(x)) == P(x)", f"raised {type(e).__name__}: {str(e)[:100]}")
+        try:
+            if var is None:
+                var = x.to_var()
+            pv = type(x).calc_proj_ineq_constraint_with_var(c, np.array(var, copy=True), on_para_eq_constraint=on_para, eps_truncate_imaginary_part=eps)
+            dv = float(np.abs(np.asarray(pv) - px.to_var()).max())
+            t.check(f"ineq{vtag}/var-level==object-level{sc}", dv <= tol, entry, "calc_proj_ineq_constraint_with_var(var) == to_var(P(x))", f"max deviation {dv:.3e}")
+        except Exception as e:  # noqa
+            if not (IMAG_MSG in str(e) and not vtag):
+                t.check(f"ineq{vtag}/var-level==object-level{sc}", False, entry, "calc_proj_ineq_constraint_with_var(var) == to_var(P(x))",
+                        f"raised {type(e).__name__}: {str(e)[:100]}")
+
+
 def _configs(tier):
     out = []
     for s in ["1q", "1qt"] + (["2q"] if tier == "thorough" else []):
@@ -167,54 +224,7 @@ def job_scale_sweep(tier="quick", seed=0, part=0, parts=1):
                     before = [np.array(a, copy=True) for a in _arrays(x)]
                     xs = _flat(x)
                     tol = TOL * max(1.0, scale)
-                    # ---- inequality projection
-                    try:
-                        px = x.calc_proj_ineq_constraint()
-                        err = None
-                    except Exception as e:  # noqa
-                        px, err = None, e
-                    if err is not None and IMAG_MSG in str(err) and not vtag:
-                        t.check(f"ineq/returns-normally:imaginary-rounding-above-default-threshold{sc}", False, entry,
-                                "the inequality projection returns for inputs of every scale with the default eps_truncate_imaginary_part",
-                                f"raised {type(err).__name__}: {str(err)[:100]}")
-                    else:
-                        t.check(f"ineq{vtag}/returns-normally{sc}", err is None, entry, "the inequality projection returns for inputs of every scale",
-                                "" if err is None else f"raised {type(err).__name__}: {str(err)[:100]}")
-                    if px is not None:
-                        pa = _arrays(px)
-                        lam = min(float(np.linalg.eigvalsh((A + A.conj().T) / 2).min()) for A in ref.operators(kind, pa))
-                        t.check(f"ineq{vtag}/positive-semidefinite{sc}", lam >= -tol, entry, "every operator of the result is positive semidefinite", f"min eigenvalue {lam:.3e}")
-                        want = ref.ineq_reference(kind, before)
-                        dev = max(float(np.abs(a - b).max()) for a, b in zip(pa, want))
-                        t.check(f"ineq{vtag}/==positive-part-reference{sc}", dev <= tol, entry,
-                                "result == positive part of the denoted operator(s) by an independent eigendecomposition", f"max deviation {dev:.3e}")
-                        pxs = _flat(px)
-                        worst = -np.inf
-                        for _ in range(4):
-                            ops = []
-                            for A in ref.operators(kind, before):
-                                G = np.array([[complex(rng.gauss(0, 1), rng.gauss(0, 1)) for _ in range(A.shape[0])] for _ in range(A.shape[0])])
-                                ops.append(scale * (G @ G.conj().T) / A.shape[0])
-                            ys = np.hstack([np.asarray(a).reshape(-1) for a in ref.from_operators(kind, ops)])
-                            worst = max(worst, float(np.dot(xs - pxs, ys - pxs)))
-                        t.check(f"ineq{vtag}/nearest-point{sc}", worst <= tol * max(1.0, scale), entry,
-                                "<x - P x, y - P x> <= 0 for positive semidefinite competitors y (variational inequality of the nearest point)", f"max inner product {worst:.3e}")
-                        try:
-                            px.eps_truncate_imaginary_part = eps
-                            ppx = _flat(px.calc_proj_ineq_constraint())
-                            dv = float(np.abs(ppx - pxs).max())
-                            t.check(f"ineq{vtag}/idempotent{sc}", dv <= tol, entry, "P(P(x)) == P(x)", f"max deviation {dv:.3e}")
-                        except Exception as e:  # noqa
-                            if not (IMAG_MSG in str(e) and not vtag):
-                                t.check(f"ineq{vtag}/idempotent{sc}", False, entry, "P(P(x)) == P(x)", f"raised {type(e).__name__}: {str(e)[:100]}")
-                        try:
-                            pv = type(x).calc_proj_ineq_constraint_with_var(c, var.copy(), on_para_eq_constraint=on_para, eps_truncate_imaginary_part=eps)
-                            dv = float(np.abs(np.asarray(pv) - px.to_var()).max())
-                            t.check(f"ineq{vtag}/var-level==object-level{sc}", dv <= tol, entry, "calc_proj_ineq_constraint_with_var(var) == to_var(P(x))", f"max deviation {dv:.3e}")
-                        except Exception as e:  # noqa
-                            if not (IMAG_MSG in str(e) and not vtag):
-                                t.check(f"ineq{vtag}/var-level==object-level{sc}", False, entry, "calc_proj_ineq_constraint_with_var(var) == to_var(P(x))",
-                                        f"raised {type(e).__name__}: {str(e)[:100]}")
+                    _check_ineq(t, rng, ref, c, kind, x, before, xs, var, on_para, scale, sc, vtag, eps, entry, tol)
                     if vtag:
                         continue
                     # ---- equality projection (objects off the constraint set: flag-off objects; with the flag on x is already feasible)
@@ -240,4 +250,50 @@ def job_scale_sweep(tier="quick", seed=0, part=0, parts=1):
                         t.check(f"eq/nearest-point{sc}", ip <= tol * max(1.0, scale), entry, "<x - P x, y - P x> == 0 for feasible y", f"|inner product| {ip:.3e}")
                     unchanged = all(np.array_equal(a, b) for a, b in zip(_arrays(x), before))
                     t.check(f"argument-unchanged{sc}", unchanged, entry, "the projections never modify their argument", "")
+    # ---- already-feasible, boundary (rank-deficient) and degenerate-spectrum inputs, built from operators (flag off)
+    for (s, kind, m, on_para) in cfgs:
+        if on_para:
+            continue
+        c = _csys(s)
+        ref = _Ref(c)
+        n_ops = {"state": 1, "gate": 1}.get(kind, m)
+        D = c.dim if kind in ("state", "povm") else c.dim ** 2
+        for scale in SCALES:
+            sc = f"[scale={scale:g}]"
+            for what in ("feasible", "boundary", "degenerate"):
+                for rep in range(max(1, reps // 2)):
+                    ops = []
+                    for _ in range(n_ops):
+                        G = np.array([[complex(rng.gauss(0, 1), rng.gauss(0, 1)) for _ in range(D)] for _ in range(D)])
+                        q, r = np.linalg.qr(G)
+                        if what == "feasible":
+                            w = [abs(rng.gauss(0, 1)) + 0.1 for _ in range(D)]
+                        elif what == "boundary":
+                            w = [abs(rng.gauss(0, 1)) + 0.1 if k < D // 2 else 0.0 for k in range(D)]
+                        else:
+                            a, b = abs(rng.gauss(0, 1)) + 0.1, -abs(rng.gauss(0, 1)) - 0.1
+                            w = [a if k % 2 == 0 else b for k in range(D)]          # two eigenvalues, each repeated
+                        A = (q * (scale * np.array(w))) @ q.conj().T
+                        ops.append((A + A.conj().T) / 2)
+                    arrays = ref.from_operators(kind, ops)
+                    if kind in ("gate", "mprocess"):
+                        # HS matrices of Hermiticity-preserving maps are real in an orthonormal Hermitian basis
+                        arrays = [np.asarray(a, dtype=float) for a in arrays]
+                    kw = dict(is_physicality_required=False, on_para_eq_constraint=False)
+                    eps_list = [("", None)] + ([("/threshold-scaled", 1e-13 * scale * scale)] if scale >= 1e2 else [])
+                    for vtag, eps in eps_list:
+                        if kind == "state":
+                            x = M("state").State(c, arrays[0], eps_truncate_imaginary_part=eps, **kw)
+                        elif kind == "povm":
+                            x = M("povm").Povm(c, arrays, eps_truncate_imaginary_part=eps, **kw)
+                        elif kind == "gate":
+                            x = M("gate").Gate(c, arrays[0], eps_truncate_imaginary_part=eps, **kw)
+                        else:
+                            x = M("mprocess").MProcess(c, arrays, eps_truncate_imaginary_part=eps, **kw)
+                        before = [np.array(a, copy=True) for a in _arrays(x)]
+                        entry = (s, kind, m, False, scale, rep, "boundary-or-feasible" if what == "boundary" else what)
+                        entry = entry[:-1] + ("feasible" if what in ("feasible", "boundary") else what,)
+                        _check_ineq(t, rng, ref, c, kind, x, before, _flat(x), None, False, scale, sc, vtag, eps, entry, TOL * max(1.0, scale))
+                        unchanged = all(np.array_equal(a, b) for a, b in zip(_arrays(x), before))
+                        t.check(f"argument-unchanged{sc}", unchanged, entry, "the projections never modify their argument", "")
     return t.results(f"{len(cfgs)} configurations x {len(SCALES)} scales x {reps} seeded random inputs, tolerance 1e-9 relative to the scale (bounded)")
